@@ -2,6 +2,7 @@ import Driver.Decode
 import Ysgo.Obs
 import Ysgo.Model.Markup
 import Ysgo.Lemmas.FuelSize
+import Ysgo.Model.Ranked
 /-! driver for the `run` stream: a program, a host configuration and an operation list over one or more runners -/
 namespace Ysgo.Drv
 open Ysgo
@@ -11,6 +12,7 @@ structure Host where
   log : List String := []
   ctlOpen : Bool := false
   ticks : Nat := 0
+  late : List String := []      -- commands registered on this runner after the run has started
 
 def showNum (x : F64) : String := if x.isNaN then "N:nan" else "N:" ++ toString x.bits
 def showVal : Value → String
@@ -31,7 +33,7 @@ def hostEnv (extraCmds : List String) : Env Host where
     | _, _ => (.err .callFailed, h)
   cmd name args h :=
     let logged : Host := { h with log := h.log ++ ["cmd:" ++ Obs.esc name ++ "(" ++ showVals args ++ ")"] }
-    if name == "cmd" || extraCmds.contains name then (.done, logged)
+    if name == "cmd" || extraCmds.contains name || h.late.contains name then (.done, logged)
     else if name == "failing" then (.failed, logged)
     else if name == "ctl" then (.pending, { logged with ctlOpen := true })
     else if name == "wait" then (.panicked, h)       -- timing dependent: not modelled in this stream
@@ -101,9 +103,10 @@ def runCase (c : S) : List String := Id.run do
   let extra := ((c.find "cmds").map S.args |>.getD []).map S.str
   let env := hostEnv extra
   let mk := realMarkup
-  -- `Props/C01Fuel.fuel_suffices_reachable`: for a Productive program the bound depending on the program alone is never
-  -- exhausted from a reachable state; other programs get a generous constant (running out is printed as UNMODELLED)
-  let fuel := if Fuel.Productive prog then Fuel.progBound prog else 100000
+  -- `Props/C01Ranked.fuelFor_sound`: for a Productive program, and for a program whose non-yielding jumps are ranked
+  -- (`Ranked.rankOf`), the bound depending on the program alone is never exhausted from a reachable state; other
+  -- programs get a generous constant (running out is printed as UNMODELLED)
+  let fuel := (Ranked.fuelFor prog).getD 100000
   let mkRunner : Option RR :=
     match Rng.seedToInt64 seedStr with
     | none => none
@@ -192,6 +195,24 @@ def runCase (c : S) : List String := Id.run do
           let r1 : RR := { hr.r with d := { hr.r.d with store := hr.r.d.store.set (a.getD 1 (.atom "")).str (value (a.getD 2 (.atom ""))) } }
           let (str, r2) := stateStr r1
           st := { st with runners := update st.runners j { hr with r := r2 }, out := st.out.push ("HSET" ++ str) }
+      | "hrev" =>
+        match lookup st.runners j with
+        | none => st := { st with out := st.out.push "NORUNNER" }
+        | some hr =>
+          let v := (a.getD 1 (.atom "")).str
+          let store' := match hr.r.d.store.get v with
+            | some (.str t) => hr.r.d.store.set v (.str (String.ofList t.toList.reverse))
+            | _ => hr.r.d.store
+          let r1 : RR := { hr.r with d := { hr.r.d with store := store' } }
+          let (str, r2) := stateStr r1
+          st := { st with runners := update st.runners j { hr with r := r2 }, out := st.out.push ("HSET" ++ str) }
+      | "addcmd" =>
+        match lookup st.runners j with
+        | none => st := { st with out := st.out.push "NORUNNER" }
+        | some hr =>
+          let name := (a.getD 1 (.atom "")).str
+          let r1 : RR := { hr.r with d := { hr.r.d with w := { hr.r.d.w with host := { hr.r.d.w.host with late := hr.r.d.w.host.late ++ [name] } } } }
+          st := { st with runners := update st.runners j { hr with r := r1 }, out := st.out.push "ADDCMD" }
       | "complete" =>
         match lookup st.runners j with
         | none => st := { st with out := st.out.push "NOCTL" }
